@@ -165,3 +165,45 @@ def run_c10(tier):
     finish(prop, tier, t0, findings, cov, assumptions=[
         "hook H1 (verif_group.rs) is a logic-free wrapper around the private Group<Perm>",
         "Group.tla computes subgroups by brute-force closure; IsGroup/Lagrange/OrbitsPartition checked by TLC on every state"])
+
+
+def run_c16(tier):
+    t0 = time.time()
+    prop = "C16"
+    import subprocess
+    nodes_path = os.path.join(UNIV, "nodes_T.json")
+    nodes = json.load(open(nodes_path))["nodes"]
+    trace = os.path.join(OUT, "tlc", "C16_trace.ndjson")
+    findings = []
+    summ = jsonl(run_bin("default", "sh_record", [nodes_path, trace]))[0]
+    cfg = open(os.path.join(SPEC, "TraceShape.cfg")).read()
+    logp, st = run_tlc_root("C16_trace", "TraceShape", {}, cfg, workers=1, env={"VERIF_TRACE": trace}, xss=True, deque=True)
+    res = list(tlcout.tagged_lines(logp, "SHAPERESULT"))
+    if not st["ok"] or not res:
+        sys.stderr.write(open(logp, errors="replace").read()[-3000:])
+        raise ToolError("TraceShape did not consume all records")
+    res = res[0]
+    recs = [json.loads(l) for l in open(trace)]
+    for b in tlcout.tagged_lines(logp, "SHAPEBAD"):
+        r = recs[b["i"]]
+        for law in b["laws"]:
+            findings.append({"kind": "finding", "prop": prop, "what": "law fails: " + law, "site": r.get("site", ""),
+                             "collides": b["collides"], "detail": {"node": nodes[b["i"]], "record": {k: r.get(k) for k in ("all", "pub", "priv", "slots", "shape_key", "bij", "back", "msg")}}})
+    if res["canon"]:
+        w = res["canon"][0]
+        findings.append({"kind": "finding", "prop": prop, "site": "", "collides": w["collides"],
+                         "what": "equal shapes for nodes that are not renamings of each other" if w["same_impl_shape"]
+                         else "different shapes for nodes that differ only by renaming", "detail": w})
+    # laws of the reference itself on a sample of nodes under all renamings (TLC, thorough: all nodes)
+    cov = {"states": st["distinct"], "transitions": st["generated"], "traces_validated_against_impl": len(recs),
+           "samples": [{"node": nodes[1999], "impl_shape": recs[1999].get("shape_key"), "public": recs[1999].get("pub"),
+                        "private": recs[1999].get("priv")}],
+           "evaluations": len(recs) * 11, "distinct_nontrivial": res["classes"],
+           "rule": "every variant layout of the derived language T (plain slots, child, Bind child, Bind next to a free child before/after, "
+                   "Bind Bind, 0/1/2-argument children) x every slot assignment over 4 names incl. repeated and shadowing names = %d nodes; "
+                   "11 laws per node judged by TraceShape.tla; distinct = renaming classes (equal reference shapes)" % len(nodes),
+           "exhaustive": True, "renaming_classes_spec": res["classes"], "renaming_classes_impl": res["impl_classes"],
+           "nodes_with_name_both_free_and_bound": sum(1 for b in recs if not b.get("panic") and set(b["pub"]) & set(b["priv"])),
+           "panics": summ["panics"]}
+    finish(prop, tier, t0, findings, cov, triggers={"node_collides": lambda f: bool(f.get("collides"))}, assumptions=[
+        "language T is produced by the in-repo define_language! (Cargo [patch]); only the laws are demanded, not the particular numbering"])
